@@ -128,6 +128,72 @@ def check_mut(run, A):
         raise AnalysisError('R-MUT positive control (set_snr mutating N in place) was not recognised')
 
 
+def check_module_state(run, A, module_prefixes):
+    """R-STATE restricted to some modules (shared with the properties that need the functions of these modules to be pure functions of their arguments): no public callable
+    reaches an in-place effect on a module-level object"""
+    ev = A.ev
+    seen = set()
+    n = 0
+    for fn in public_callables(A.prog, SCOPE_MODULES_C20):
+        if not any(fn.mod.name == p.rstrip('.') or fn.mod.name.startswith(p) for p in module_prefixes):
+            continue
+        try:
+            ctx = ev.entry(fn)
+        except RecursionError:
+            continue
+        for c in ctx_tree(ctx):
+            for (e, tv, _v) in c.effects:
+                kind, node = effect_desc(e)
+                for a in tv.alias:
+                    if a and a[0] == 'global' and not a[2].startswith('<results memoised'):
+                        n += 1
+                        key = (a[1], a[2], c.fn.qual)
+                        if key in seen:
+                            continue
+                        seen.add(key)
+                        run.violation('R-STATE', f'{c.fn.qual} mutates module-level object {a[2]}', c.fn.loc(node),
+                                      f'`{norm_stmt(node) if node is not None else kind}` writes into the module global `{a[1]}.{a[2]}`: the result of a later call depends on the calls made '
+                                      f'before it (a cache keyed on the identity of an array, or on part of the configuration, returns what was computed for other content)',
+                                      construct=f'R-STATE::{c.fn.qual}::global-mutation::{a[2]}', path=c.chain())
+    run.count('effects on module-level objects examined', n)
+
+
+def check_instance_tables(run, A, module_prefixes):
+    """a dict / list that an object creates in __init__ and that one of its other methods both fills and reads is a memo carried from one call - and from one iteration of a
+    loop over classes / frequencies - to the next: the value computed for the first entry that reaches a cell is handed to every later one (syntactic rule on the class bodies)"""
+    import ast as _ast
+    n = 0
+    for mod in A.prog.mods.values():
+        if not any(mod.name == p.rstrip('.') or mod.name.startswith(p) for p in module_prefixes):
+            continue
+        for cls in mod.classes.values():
+            init = cls.methods.get('__init__') or cls.methods.get('__post_init__')
+            if init is None:
+                continue
+            tables = set()
+            for st in _ast.walk(init.node):
+                if isinstance(st, _ast.Assign) and len(st.targets) == 1 and isinstance(st.targets[0], _ast.Attribute) and isinstance(st.targets[0].value, _ast.Name) \
+                        and st.targets[0].value.id == 'self' and (isinstance(st.value, (_ast.Dict, _ast.List)) and not (getattr(st.value, 'keys', None) or getattr(st.value, 'elts', None))
+                                                                    or (isinstance(st.value, _ast.Call) and isinstance(st.value.func, _ast.Name) and st.value.func.id in ('dict', 'list', 'OrderedDict', 'defaultdict'))):
+                    tables.add(st.targets[0].attr)
+            for name in sorted(tables):
+                for m in cls.methods.values():
+                    if m is init:
+                        continue
+                    writes = [x for x in _ast.walk(m.node) if (isinstance(x, _ast.Subscript) and isinstance(x.ctx, _ast.Store) and isinstance(x.value, _ast.Attribute) and x.value.attr == name
+                                                                and isinstance(x.value.value, _ast.Name) and x.value.value.id == 'self')
+                              or (isinstance(x, _ast.Call) and isinstance(x.func, _ast.Attribute) and x.func.attr in ('setdefault', 'update', 'append') and isinstance(x.func.value, _ast.Attribute)
+                                  and x.func.value.attr == name and isinstance(x.func.value.value, _ast.Name) and x.func.value.value.id == 'self')]
+                    reads = [x for x in _ast.walk(m.node) if isinstance(x, _ast.Attribute) and x.attr == name and isinstance(x.value, _ast.Name) and x.value.id == 'self'
+                             and isinstance(x.ctx, _ast.Load)]
+                    n += 1
+                    if writes and len(reads) > len(writes):
+                        run.violation('R-STATE', f'{m.qual}: a table created in __init__ is filled and read while results are computed', m.loc(writes[0]),
+                                      f'`self.{name}` is a lookup table that {m.name} fills and reads: what is computed for one entry (class, frequency, call) is handed to later entries that '
+                                      f'hit the same cell - the result depends on the order in which the entries are visited and on earlier calls', construct=f'R-STATE::{m.qual}::instance-table::{name}')
+    run.count('tables created in constructors examined', n)
+
+
 def self_attr_reads(graph):
     out = set()
     if graph.self_name is None:
@@ -516,6 +582,7 @@ def check(run):
                        'the Cython extensions (.pyx) are not built on this image and not analysed']
     check_mut(run, A)
     check_state(run, A)
+    check_instance_tables(run, A, ('pb_bss.distribution.', 'pb_bss.extraction.', 'pb_bss.permutation_alignment', 'pb_bss.evaluation.'))
     check_mutable_defaults(run, A)
     rng_and_nondet(run, A)
     check_loop_continuation(run, A)
